@@ -5,6 +5,7 @@ pub mod pipeline;
 pub mod types;
 pub mod value;
 pub mod vm;
+pub mod watchdog;
 
 pub fn generate(family: &str, seed: u64, n: usize, tier: &str, emit: &mut dyn FnMut(String)) {
     match family {
@@ -20,6 +21,7 @@ pub fn generate(family: &str, seed: u64, n: usize, tier: &str, emit: &mut dyn Fn
         "merge" => types::generate_merge(seed, n, tier, emit),
         "unify" => types::generate_unify(seed, n, tier, emit),
         "truth" => types::generate_truth(seed, n, tier, emit),
+        "watchdog" => watchdog::generate(seed, n, tier, emit),
         "fold" => value::generate_fold(seed, n, tier, emit),
         "size" => value::generate_size(seed, n, tier, emit),
         _ => panic!("unknown family {family}"),
@@ -40,6 +42,7 @@ pub fn eval(family: &str, payload: &str) -> String {
         "merge" => types::eval_merge(payload),
         "unify" => types::eval_unify(payload),
         "truth" => types::eval_truth(payload),
+        "watchdog" => watchdog::eval(payload),
         "fold" => value::eval_fold(payload),
         "size" => value::eval_size(payload),
         _ => format!("err unknown-family-{family}"),
